@@ -340,6 +340,9 @@ static void check_pair(Ctx& c, Pair& p, const Opt& opt) {
   }
 }
 
+// stratified subsampling for the (expensive) global scan: by a hash of the case index, so that every shard gets its share
+static bool pick(const Ctx& c, uint64_t one_in) { return vh::mix64(c.idx * 0x9e3779b97f4a7c15ULL + 777) % one_in == 0; }
+
 // ================================================================ generators
 static gh::EllSpec ell_of(double a, double f, const std::string& bucket = "") {
   gh::EllSpec e; e.a = a; e.f = f; double af = std::fabs(f); e.series_ok = af <= 0.2;
@@ -382,7 +385,7 @@ static void sec_constructed(Ctx& c, uint64_t) {
   if (!rk.have) c.event("constructed pairs without certificate (longitudinal extent >= 180)");
   p.sec = "constructed-" + cn;
   // stratified 4 % subsample also gets the global scan (1 % on the extreme ellipsoids, whose scans cost ~1 s)
-  Opt o; o.rk = &rk; o.scan = c.idx % 25 == 0 && !((p.e.f > 0.6 || p.e.f < -2) && c.idx % 100 != 0);
+  Opt o; o.rk = &rk; o.scan = pick(c, 25) && !((p.e.f > 0.6 || p.e.f < -2) && !pick(c, 100));
   check_pair(c, p, o);
 }
 
@@ -405,7 +408,7 @@ static void sec_random(Ctx& c, uint64_t) {
   case 3: p.lon2 = p.lon1 + r.sign() * r.logu(1e-14, 1e-3); break;
   default: p.lon2 = gh::pick_lon(r); break;
   }
-  Opt o; o.scan = c.idx % 20 == 0 && !((p.e.f > 0.6 || p.e.f < -2) && c.idx % 80 != 0);
+  Opt o; o.scan = pick(c, 20) && !((p.e.f > 0.6 || p.e.f < -2) && !pick(c, 80));
   check_pair(c, p, o);
 }
 
@@ -420,7 +423,7 @@ static void sec_short(Ctx& c, uint64_t) {
   if (std::fabs(p.lat2) > 90) p.lat2 = std::copysign(90.0, p.lat2);
   p.lon2 = p.lon1 + len * std::sin(th * M_PI / 180) / (R * coslat) * 180 / M_PI;
   if (r.coin(0.05)) { p.lat2 = p.lat1; p.lon2 = p.lon1 + (r.coin() ? 0 : 360); }       // coincident
-  Opt o; o.scan = c.idx % 40 == 0;
+  Opt o; o.scan = pick(c, 40);
   check_pair(c, p, o);
 }
 
@@ -433,7 +436,7 @@ static void sec_antipodal_ulps(Ctx& c, uint64_t) {
   p.lat2 = vh::ulps(-p.lat1, r.range(-6, 6)); if (std::fabs(p.lat2) > 90) p.lat2 = -p.lat1;
   p.lon1 = r.coin(0.7) ? 0.0 : r.uniform(-180, 180);
   p.lon2 = p.lon1 + 180; if (r.coin(0.4)) p.lon2 = vh::ulps(p.lon2, r.range(-4, 4));
-  Opt o; o.scan = c.idx % 20 == 0;
+  Opt o; o.scan = pick(c, 20);
   check_pair(c, p, o);
 }
 
@@ -461,7 +464,7 @@ static void sec_near_equator(Ctx& c, uint64_t) {
   if (dl > 180) dl = 360 - dl;
   if (dl < 0) dl = -dl;
   p.lon2 = p.lon1 + dl * (r.coin(0.8) ? 1 : -1);
-  Opt o; o.scan = c.idx % 10 == 0 && !(c.quick() && (f > 0.6 || f < -2) && c.idx % 40 != 0);
+  Opt o; o.scan = pick(c, 10) && !((f > 0.6 || f < -2) && !pick(c, 40));
   check_pair(c, p, o);
 }
 
@@ -572,7 +575,7 @@ static bool thinned_out(const Ctx& c, uint64_t i) {
 static void sec_directed(Ctx& c, uint64_t i) {
   if (thinned_out(c, i)) return;
   Pair p; if (!directed_case(i, c.rng, p)) return;
-  Opt o; o.scan = !(c.quick() && (p.e.f > 0.6 || p.e.f < -2) && i % 4 != 0); check_pair(c, p, o);
+  Opt o; o.scan = !(c.quick() && (p.e.f > 0.6 || p.e.f < -2) && !pick(c, 4)); check_pair(c, p, o);
 }
 
 // ---- dense raster of the astroid neighbourhood of the antipodal point (x, y scaled as the solver's InverseStart does:
